@@ -33,6 +33,7 @@ type PktSpec struct {
 	BodyMode int    `json:"body_mode"` // 0 pseudo-random(seed), 1 repeating pattern(seed), 2 explicit
 	BodySeed uint64 `json:"body_seed"`
 	Explicit []byte `json:"explicit,omitempty"`
+	Rate     int64  `json:"rate,omitempty"` // rateLimitBytesPerSecond argument of WritePacket (0 = unlimited)
 }
 
 type Cmd struct {
@@ -147,6 +148,8 @@ func genStr(t *rapid.T, label string) string {
 
 func genPkt(t *rapid.T, maxBody int) PktSpec {
 	p := PktSpec{Type: genType(t), Compress: rapid.Bool().Draw(t, "compress")}
+	// the per-packet rate limit of WritePacket: high enough that pacing costs no real time
+	p.Rate = rapid.SampledFrom([]int64{0, 0, 0, 512 << 20, 64 << 20}).Draw(t, "rate")
 	if isJSONType(p.Type) {
 		p.Cmd = &Cmd{CommandType: byte(rapid.IntRange(0, 255).Draw(t, "ct")), CommandId: genStr(t, "id"), Token: genStr(t, "tok"),
 			SenderId: genStr(t, "snd"), ReceiverId: genStr(t, "rcv"), CommandBody: genStr(t, "cbody")}
@@ -257,7 +260,7 @@ func encode(pkts []PktSpec) (wire []byte, bounds [][2]int, writes []int, counts 
 	defer sp.Close()
 	for _, p := range pkts {
 		start := w.buf.Len()
-		n, e := sp.WritePacket(p.packet(), p.Compress, 0)
+		n, e := sp.WritePacket(p.packet(), p.Compress, p.Rate)
 		if e != nil {
 			return nil, nil, nil, nil, e
 		}
